@@ -300,6 +300,41 @@ def run(ctx):
             if not ok:
                 res.find(key, sv.loc(sp_), "substitute_variables does not return a %s node unchanged (returns %s)" % ("/".join(sorted(sel)), str(e[:2])[:80]), "`%theta + theta` with theta := 2 and memory theta = [5]: evaluates to 7, substituted first it evaluates to 4")
     res.count("substitute_leaf_returns", nleaf, floor=1)
+    # R2b' the leaves of evaluate: a memory reference reads exactly the cell at its own index (no arithmetic on the index),
+    # as a real number; `pi` is the number pi
+    import math as _math13
+
+    key = "K5|evaluate-address-cell"
+    gets = []
+    for g_ in [ev] + db.closures_of(ev):
+        for bb, t, c in g_.calls():
+            if c and c.get("name") == "get" and "slice" in callee_path(c) and len(t["args"]) == 2:
+                gets.append((g_, fn_expr_operand(g_, t["args"][1])))
+    ok = False
+    detail = {"cell_lookups": len(gets)}
+    if len(gets) == 1:
+        e = gets[0][1]
+        while e[0] == "cast":
+            e = e[2]
+        ok = e[0] == "field" and e[2] == "index"
+        detail["index_expression"] = str(e[:1] + (e[2],) if e[0] == "field" else e[:2])[:60]
+    res.site(key, True, dict(detail, verdict="ok" if ok else "VIOLATION"))
+    if not ok:
+        res.find(key, ev.loc(), "evaluate does not read the memory cell at exactly the reference's own index (%s)" % detail, "`theta[0]` evaluates to the value of theta[1]")
+    key = "K8|evaluate-pi"
+    news = [(bb, t) for bb, t, c in ev.calls() if c and c.get("name") == "new" and "Complex" in callee_path(c)]
+    pis = []
+    for bb, t in news:
+        a = [fn_expr_operand(ev, x) for x in t["args"]]
+        if len(a) == 2 and a[0][0] == "const" and a[1][0] == "const":
+            try:
+                pis.append((float(a[0][1]), float(a[1][1])))
+            except (TypeError, ValueError):
+                pass
+    ok = len(pis) == 1 and abs(pis[0][0] - _math13.pi) < 1e-15 and pis[0][1] == 0.0
+    res.site(key, True, {"constant_values": pis, "verdict": "ok" if ok else "VIOLATION"})
+    if not ok:
+        res.find(key, ev.loc(), "evaluate does not give the symbolic constant pi the value 3.14159...+0i (constants built: %s)" % pis, "`pi` evaluates to 6.28")
     # R2c every value evaluate computes from evaluated children goes through calculate_infix / calculate_function / negation
     WRAP = ("calculate_infix", "calculate_function", "neg")
     nok_ = 0
